@@ -271,7 +271,8 @@ def check_primal(pep, handles, tau_primal, tau_dual, wrapper, fails):
     from PEPit.expression import Expression as _E
     Fl = np.asarray(pep.F_value, dtype=float).reshape(-1)
     Fe = np.array([x.eval() for x in _E.list_of_leaf_expressions], dtype=float)
-    if Fl.shape != Fe.shape or np.max(np.abs(Fl - Fe), initial=0) > 1e-9 * (1 + np.max(np.abs(Fe), initial=0)):
+    # (entry k is the value of leaf expression k; the MOSEK back-end keeps its auxiliary objective variable as one more trailing entry)
+    if len(Fl) < len(Fe) or np.max(np.abs(Fl[:len(Fe)] - Fe), initial=0) > 1e-9 * (1 + np.max(np.abs(Fe), initial=0)):
         fails.append(('C02', 'function_values.public', 'PEP.F_value differs from the values of the leaf expressions'))
     for p in handles.get('points', []):
         want = sum((wgt * k.eval() for k, wgt in p.decomposition_dict.items()), np.zeros_like(vals[0]) if vals else 0)
